@@ -78,6 +78,7 @@ def scheme_rules(ctx):
     schemes.stamp_rules(ctx)
     schemes.lfrc_rules(ctx)
     schemes.list_push_rules(ctx)
+    schemes.deleter_rules(ctx)
 
 
 def C01(ctx):
@@ -103,10 +104,13 @@ def C01(ctx):
 def C02(ctx):
     ctx.only = ("K1.", "K4.reclaim-after-unlink", "HP.retire", "HP.thread-exit", "HP.delete-licensed", "HP.protocol",
                 "HE.retire", "HE.thread-exit", "HE.delete-licensed", "HE.protocol", "EBR.orphans", "EBR.epoch-slots", "EBR.thread-exit", "EBR.protocol",
-                "QSBR.protocol", "QSBR.thread-exit", "STAMP.", "LFRC.delete-licensed", "LFRC.thread-exit", "LFRC.protocol", "LIST.")
+                "QSBR.protocol", "QSBR.thread-exit", "STAMP.", "LFRC.delete-licensed", "LFRC.thread-exit", "LFRC.protocol", "LIST.", "DEL.",
+                # a protection unit that is never given back (a leaked reference count, a slot that stays published) keeps objects undestroyed for ever
+                "K3.")
     k1_rules(ctx, "C02")
     reclaim.reclaim_after_unlink(ctx, [".hpp"])
     scheme_rules(ctx)
+    typestate.rules(ctx)
     return ("Decides structural necessary conditions of 'destroyed exactly once by its own deleter, never leaked': deleter stored and own protection released "
             "before a node enters a retire list; every thread_data destructor hands its pending nodes over before releasing its control block; protected "
             "nodes are kept, unprotected ones deleted (exactly one branch each); lock-free list pushes re-link before every CAS attempt; adopted orphans are "
@@ -115,7 +119,7 @@ def C02(ctx):
 
 
 def C04(ctx):
-    ctx.only_skip = ("VBQ.", "KF.")
+    ctx.only_skip = ("VBQ.", "KF.", "SCQ.threshold-thread-bound")
     k1_rules(ctx, "C04")
     reclaim.reclaim_after_unlink(ctx, FILES["C04"])
     queues.michael_scott(ctx)
